@@ -11,7 +11,7 @@ GROUPS = [
           loops="C16/expand.loops.json", expected_loops=2, unwind=3, checks=CH, timeout=600),
     Group(name="C16/tokens_get", unity="C16/u_tokens.cpp", entry="h_tokens_get",
           functions=[("tokens_get", "core/tokens.cpp", "harness+7 loop-contracts, unbounded character stream"), ("tokens_get_char", "core/tokens.cpp", "loop-contract"), ("tokens_unget_char", "core/tokens.cpp", "real callee"), ("process_escape", "core/tokens.cpp", "real callee")],
-          loops="C16/tokens.loops.json", expected_loops=7, unwind=20, checks=CH[:2], timeout=2400, mem_gb=30, tier="thorough", defines=["TLEN=16"], subst={"TLEN": 16}),
+          loops="C16/tokens.loops.json", expected_loops=7, unwind=20, checks=CH[:2], timeout=2400, mem_gb=30, defines=["TLEN=16"], subst={"TLEN": 16}),
     Group(name="C16/tokens_get.len512", unity="C16/u_tokens.cpp", entry="h_tokens_get",
           functions=[("tokens_get", "core/tokens.cpp", "harness+7 loop-contracts, unbounded character stream, the real TOKENLEN"), ("tokens_get_char", "core/tokens.cpp", "loop-contract")],
           loops="C16/tokens.loops.json", expected_loops=7, unwind=515, checks=CH[:2], timeout=3000, mem_gb=40, tier="thorough", defines=["TLEN=512"], subst={"TLEN": 512}),
@@ -21,7 +21,7 @@ GROUPS += [g for g in _c04.GROUPS if "Var.divmod" == g.name.split("/")[1]]
 LEVEL = "proof"
 TRUSTED = ["the character reader is replaced by a stream contract returning an arbitrary byte or EOF per call (streams shorter than 2^28 characters)", "malloc succeeds; stack depth of the C recursion is not modelled"]
 MANIFEST = {
-    "text": "Memory-safety and termination contracts on the functions that own fixed buffers: macro expansion stack, macro argument collection over an unbounded character stream (loop contracts), Memory page walk at every address, .align termination, division guards.",
-    "note": "tokens_get's six loops, macros_parse, include paths and the other encoders' operand arrays are not under contract (see evidence/DESIGN gap); resource exhaustion is out of scope.",
-    "technique": "CBMC generated array-bounds/pointer/overflow obligations under DFCC loop contracts on core/Macros.cpp, core/Memory.cpp, core/directives_data.cpp, core/Var.cpp",
+    "text": "Memory-safety and termination contracts on the functions that own fixed buffers: the tokenizer (tokens_get/tokens_get_char, seven loop contracts with variants over an unbounded character stream, token buffers of 16 and of the real 512 bytes), macro expansion stack, macro argument collection over an unbounded character stream (loop contracts), Memory page walk at every address, .align termination, division guards.",
+    "note": "macros_parse, include paths and the other encoders' operand arrays are not under contract (see evidence/DESIGN gap); resource exhaustion is out of scope.",
+    "technique": "CBMC generated array-bounds/pointer/overflow obligations under DFCC loop contracts (invariants + decreases) on core/tokens.cpp, core/Macros.cpp, core/Memory.cpp, core/directives_data.cpp, core/Var.cpp",
 }
